@@ -1,8 +1,31 @@
 /* Unit: lib/lzs_decoder.c (-lzs-, 2 KiB ring, absolute copy positions). */
 #define VG_CB_MAX 4
+#ifdef VG_FUNC
+#define VG_CB vg_cbf
+#endif
 #include "vg_decoder.h"
+#ifdef VG_FUNC
+#include "lib/lha_decoder.h"
+#include "vg_bits.h"
+#endif
 #include "vg_ring.h"
 #define VG_BSR BSR_OK(&vg_dec.bit_stream_reader)
+
+/* -lzs- command semantics from the format (property C03): CUR0 = bit cursor at entry.
+   flag = 1 bit; literal: 8 bits; copy: 11-bit absolute ring position, 4-bit length stored minus 2. */
+#define LZS_CUR0   (8 * __CPROVER_old(vg_in_pos) - __CPROVER_old(vg_dec.bit_stream_reader.bits))
+#define LZS_FLAG   VG_SB(LZS_CUR0, 1u)
+#define LZS_LIT    VG_SB(LZS_CUR0 + 1, 8u)
+#define LZS_POS    VG_SB(LZS_CUR0 + 1, 11u)
+#define LZS_LEN    (VG_SB(LZS_CUR0 + 12, 4u) + 2u)
+#define LZS_CMD_POST_COUNT(r)     ((r) == 0 || (LZS_FLAG == 1 ? (r) == 1 : (r) == LZS_LEN))
+#define LZS_CMD_POST_LITERAL(r)   (((r) != 0 && LZS_FLAG == 1) ==> (vg_out[0] == LZS_LIT && VG_CUR(&vg_dec.bit_stream_reader) == LZS_CUR0 + 9 && \
+                                   vg_dec.ringbuf_pos == (VG_P0 + 1) % RING_BUFFER_SIZE && \
+                                   vg_dec.ringbuf[vg_Y] == (vg_Y == VG_P0 ? (uint8_t) LZS_LIT : VG_R0(vg_Y))))
+#define LZS_CMD_POST_COPY_BYTE(r) (((r) != 0 && LZS_FLAG == 0) ==> (LZS_BLK_POST_BYTE_(LZS_POS, LZS_LEN, 0, VG_P0) && \
+                                   VG_CUR(&vg_dec.bit_stream_reader) == LZS_CUR0 + 16 && vg_dec.ringbuf_pos == (VG_P0 + LZS_LEN) % RING_BUFFER_SIZE))
+#define LZS_CMD_POST_COPY_RING(r) (((r) != 0 && LZS_FLAG == 0) ==> LZS_BLK_POST_RING_(LZS_LEN, 0, VG_P0))
+#define LZS_CMD_POST_NONE(r)      ((r) == 0 ==> (vg_dec.ringbuf[vg_Y] == VG_R0(vg_Y) && vg_dec.ringbuf_pos == VG_P0))
 
 /* snapshot scalars for harness-mode groups (declared before the include: contract text mentions them) */
 static size_t vg_p0, vg_l0;
@@ -13,6 +36,11 @@ static unsigned vg_n0;
 
 static void vg_havoc(void)
 {
+#ifdef VG_FUNC
+	__CPROVER_havoc_object(vg_in);
+	vg_in_pos = nondet_size_t();
+	vg_eof = 0;
+#endif
 	__CPROVER_havoc_object(&vg_dec);
 	__CPROVER_havoc_object(vg_out);
 	__CPROVER_havoc_object(vg_log);
